@@ -129,6 +129,7 @@ type Violation struct {
 	OrigCells int      `json:"orig_cells"`
 	OrigScen  []uint32 `json:"orig_scen,omitempty"`
 	OrigDyn   []uint32 `json:"orig_dyn,omitempty"`
+	BatchFrom uint64   `json:"batch_from"`
 }
 
 type Summary struct {
@@ -459,9 +460,14 @@ func explore(t *testing.T, p *Prop, tier string) {
 				}
 			}
 			if !have && len(sum.Violations) < maxViol {
+				if os.Getenv("VSIM_NO_MINIMISE") != "" {
+					sum.Violations = append(sum.Violations, Violation{Class: o.Class, Msg: o.Msg, RunIdx: idx, Seed: rs, Scen: tape.EffScen, Dyn: tape.EffDyn,
+						EventHash: o.EventHash, OrigCells: len(tape.EffScen) + len(tape.EffDyn), BatchFrom: from})
+					continue
+				}
 				scen, dyn, reruns, last := minimise(t, p, tier, tape.EffScen, tape.EffDyn, o.Class, minBudget)
 				sum.Violations = append(sum.Violations, Violation{Class: o.Class, Msg: last.Msg, RunIdx: idx, Seed: rs, Scen: scen, Dyn: dyn,
-					EventHash: last.EventHash, Reruns: reruns, OrigCells: len(tape.EffScen) + len(tape.EffDyn), OrigScen: tape.EffScen, OrigDyn: tape.EffDyn})
+					EventHash: last.EventHash, Reruns: reruns, OrigCells: len(tape.EffScen) + len(tape.EffDyn), OrigScen: tape.EffScen, OrigDyn: tape.EffDyn, BatchFrom: from})
 			}
 		}
 	}
